@@ -2,7 +2,8 @@
     class.  Each witness history was replayed on the Go code (corpus of the harness). *)
 From Coq Require Import List NArith Bool Arith.
 Import ListNotations.
-Require Import Aurora.C10.Model Aurora.C10.Spec.
+From Coq Require Import Lia.
+Require Import Aurora.C10.Model Aurora.C10.Spec Aurora.C10.Basics.
 Local Open Scope N_scope.
 
 Definition r1 := repeat 1 32.
@@ -79,4 +80,30 @@ Proof.
   - intros q. unfold h_has_prefix, spec_run. cbn [fold_left spec_step]. unfold spec_upd, spec_empty.
     destruct (list_eqb_N [97;99] q); [reflexivity|]. destruct (list_eqb_N [97;98] q); [reflexivity|].
     destruct (list_eqb_N [97;99] q); [reflexivity|]. destruct (list_eqb_N [97;98] q); reflexivity.
+Qed.
+
+Lemma no_collisionb_ok : forall addr log, no_collisionb addr log = true -> no_collision addr log.
+Proof.
+  intros addr log H d1 d2 H1 H2 Heq. unfold no_collisionb in H. rewrite forallb_forall in H.
+  specialize (H d1 H1). rewrite forallb_forall in H. specialize (H d2 H2).
+  rewrite Heq in H. assert (Hr : forall a, list_eqb_N a a = true) by (induction a; simpl; [reflexivity | now rewrite N.eqb_refl]).
+  rewrite Hr in H. simpl in H. clear - H. revert d2 H. induction d1 as [|x d1 IH]; intros [|y d2] H; simpl in H; try discriminate; [reflexivity|].
+  apply andb_true_iff in H as [H1 H2]. apply N.eqb_eq in H1. subst. f_equal. now apply IH.
+Qed.
+
+Lemma h_has_prefix_disciplined : disciplined spec_empty false h_has_prefix.
+Proof.
+  unfold h_has_prefix. cbn [disciplined op_in_domain op_disciplined].
+  split; [dom|]. split; [split; [reflexivity | intros _ e' m' H; discriminate H]|].
+  split; [dom|]. split; [split; [reflexivity | intros _ e' m' H; unfold spec_step, spec_upd, spec_empty in H; simpl in H; discriminate H]|].
+  split; [exact I|]. split.
+  { split; [reflexivity|]. intros q [Hq Hl]. unfold spec_step, spec_upd, spec_empty.
+    destruct (list_eqb_N [97; 99] q) eqn:E1.
+    - apply list_eqb_N_eq in E1. subst q. simpl in Hq. discriminate Hq.
+    - destruct (list_eqb_N [97; 98] q) eqn:E2; [|reflexivity]. apply list_eqb_N_eq in E2. subst q. simpl in Hl. lia. }
+  split; [exact I|]. split; [|exact I].
+  split; [reflexivity|]. intros q [Hq Hl]. unfold spec_step, spec_upd, spec_empty.
+  destruct (list_eqb_N [97; 98] q) eqn:E2; [reflexivity|].
+  destruct (list_eqb_N [97; 99] q) eqn:E1; [|reflexivity].
+  apply list_eqb_N_eq in E1. subst q. simpl in Hl. lia.
 Qed.
